@@ -1075,6 +1075,19 @@ fn corpus() -> Vec<String> {
     m[1][7] = 0;
     m[2][30] = 0;
     push(format!("k=f32 R=3 mi=96 t=0 m={}", show_matrix(&m)), &mut out);
+    // zeros of both signs are equal as values: -0.0 >= +0.0 and +0.0 >= -0.0, so every zero is a
+    // maximum and qualifies for a threshold of either sign; 16 / 48 / 64 columns, SSE2 tie order
+    // (the last row of a column, then the last column, wins)
+    push(format!("k=f32 R=3 mi=96 t=2147483648 m={}", show_matrix(&m)), &mut out);
+    for &(kind, cols) in &[("f16", 16usize), ("f48", 48), ("f64", 64)] {
+        let mut m = vec![vec![fbits(-1.0); cols]; 3];
+        m[0][1] = 0;
+        m[1][cols / 2] = 0x8000_0000;
+        m[2][cols - 1] = 0;
+        m[0][cols - 1] = 0x8000_0000;
+        push(format!("k={} R=3 mi={} t=2147483648 m={}", kind, 3 * cols, show_matrix(&m)), &mut out);
+        push(format!("k={} R=3 mi={} t=0 m={}", kind, 3 * cols, show_matrix(&m)), &mut out);
+    }
     for &v in &[0u32, 255, 128] {
         let m = vec![vec![v; 32]; 3];
         push(format!("k=u8 R=3 mi=96 t={} m={}", v, show_matrix(&m)), &mut out);
